@@ -38,17 +38,33 @@ type Subscriber[S any] struct {
 	MinInterval time.Duration
 	// mu is used to prevent multiple flushes from racing over each other.
 	mu sync.Mutex
+	// wg tracks asynchronous flushes in flight; closed rejects new ones.
+	wg     sync.WaitGroup
+	closed bool
 }
 
 // Flush is the handler to bind to the Observable.
 func (f *Subscriber[S]) Flush(ctx context.Context, state S) {
 	f.mu.Lock()
 	defer f.mu.Unlock()
-	if time.Since(f.LastFlush) < f.MinInterval {
+	if f.closed || time.Since(f.LastFlush) < f.MinInterval {
 		return
 	}
 	f.LastFlush = time.Now()
-	go f.FlushSync(ctx, state)
+	f.wg.Add(1)
+	go func() {
+		defer f.wg.Done()
+		f.FlushSync(ctx, state)
+	}()
+}
+
+// Close stops further asynchronous flushes and waits for the ones in flight, so that the
+// store can be closed afterwards. FlushSync remains usable.
+func (f *Subscriber[S]) Close() {
+	f.mu.Lock()
+	f.closed = true
+	f.mu.Unlock()
+	f.wg.Wait()
 }
 
 // FlushSync synchronously flushes the given state to the store.
